@@ -6,6 +6,8 @@ import (
 	"context"
 	"encoding/json"
 	"fmt"
+	"google.golang.org/protobuf/reflect/protoreflect"
+	"google.golang.org/protobuf/types/dynamicpb"
 	"math/rand"
 
 	"github.com/cloudwego/dynamicgo/conv"
@@ -126,6 +128,37 @@ func c13pMain(args map[string]string) {
 	if n := atoi(args["n"]); n > 0 {
 		seed := int64(atoi(args["seed"]))
 		keyKinds := []string{"int32", "int64", "uint32", "uint64", "bool", "string", "string"}
+		// first (before anything large has grown the pooled buffers): messages dominated by one string of control characters,
+		// whose JSON text is six times as long
+		if idx >= startAt {
+			env, err := newPbEnv(PSchema{Root: "Root", Msgs: map[string][]PField{"Root": {
+				{Num: 1, Name: "s", Kind: "string", Card: "one"}, {Num: 2, Name: "m", Kind: "string", Card: "map", KKind: "string"}, {Num: 3, Name: "n", Kind: "int32", Card: "one"}}}})
+			if err != nil {
+				die("dense-string schema: %v", err)
+			}
+			c.setSchema(env.schema)
+			for _, l := range []int{150, 700, 1000, 3000, 20000} {
+				for _, where := range []string{"s", "mkey", "mval"} {
+					b := make([]byte, l)
+					for k := range b {
+						b[k] = byte(1 + k%31)
+					}
+					m := dynamicpb.NewMessage(c.env.rroot)
+					switch where {
+					case "s":
+						m.Set(c.env.rroot.Fields().ByNumber(1), protoreflect.ValueOfString(string(b)))
+					case "mkey":
+						m.Mutable(c.env.rroot.Fields().ByNumber(2)).Map().Set(protoreflect.ValueOfString(string(b)).MapKey(), protoreflect.ValueOfString("v"))
+					case "mval":
+						m.Mutable(c.env.rroot.Fields().ByNumber(2)).Map().Set(protoreflect.ValueOfString("k").MapKey(), protoreflect.ValueOfString(string(b)))
+					}
+					m.Set(c.env.rroot.Fields().ByNumber(3), protoreflect.ValueOfInt32(7))
+					pc := PRTCase{B: B(refMarshal(m))}
+					c.out.Begin(idx, PRTCase{Schema: &c.env.schema, B: pc.B})
+					c.run(pc)
+				}
+			}
+		}
 		for i := 0; i < n; i++ {
 			if idx+i < startAt {
 				continue
